@@ -215,6 +215,64 @@ def build():
                          c.old.attr(c.p.self, 'class_id_to_class_method_ids')))],
                      loops={k: LoopSpec(invariants=[('the-tables-stay-in-place', tables_stable)], modifies=cs_mod) for k in range(1, 11)},
                      modifies=lambda c: {'*': True}))
+    # ---- relative imports: how many package levels `from ...mod import x` climbs (ImportHierarchy.analyze_import_stmt, prefix up to the path search) ------------------
+    IH = 'src/lian/basics/import_hierarchy.py'
+    reg.add_class(ClassInfo('ModuleNode', IH, dict(scope_id=Int)))
+    reg.add_class(ClassInfo('UnitInfo', IH, dict(parent_module_id=Int, original_path=Any)))
+    reg.add_class(ClassInfo('ImportStmt', IH, dict(alias=Any, name=Any, source=Any, stmt_id=Any)))
+    reg.add_class(ClassInfo('ImportHierarchy', IH, dict(symbol_id_to_symbol_node=Dict(Any, Opt(Obj('ModuleNode'))), is_strict_parse_mode=Any)))
+    IHO = Obj('ImportHierarchy')
+    reg.const_values['INVALID'] = lambda ex, st: V(S.mk_bool(z3.BoolVal(False)), Bool)
+    reg.add(Contract(IH, 'ImportHierarchy.validate_import_stmt', dict(self=IHO, unit_info=Obj('UnitInfo'), stmt=Obj('ImportStmt')), returns=Bool, opaque=True, modifies=lambda c: {},
+                     allow_raise=('SystemExit',), note='shape check of the import statement (messages only)'))
+    reg.add(Contract(IH, 'ImportHierarchy.get_import_path_from_stmt', dict(self=IHO, stmt=Obj('ImportStmt')), returns=Str, opaque=True, modifies=lambda c: {},
+                     note='source + "." + name of the statement'))
+    up = z3.Function('package_levels_up', z3.IntSort(), S.PyObj(), S.PyObj())
+
+    def climbable(h, self_, x):
+        m = h.attr(self_, 'symbol_id_to_symbol_node')
+        n = z3.Select(h.val(m), x)
+        return z3.And(z3.Select(h.dom(m), x), z3.Not(S.is_none(n)), S.ival(h.attr(n, 'scope_id')) != -1)
+
+    def parent_of(h, self_, x):
+        return h.attr(z3.Select(h.val(h.attr(self_, 'symbol_id_to_symbol_node')), x), 'scope_id')
+
+    def up_def(ex, st):
+        """package_levels_up(k, id): the module reached from id by climbing k package levels in the ENTRY heap, stopping for good at a module that has no recorded
+        parent (root, unknown id, missing node) — the recursive definition the loop must implement"""
+        h = ex.ctx(st).cur
+        self_ = st.env['self'].t
+        k = z3.Int('lk')
+        x = z3.Const('lx', S.PyObj())
+        st.assume(z3.ForAll([k, x], up(k, x) == z3.If(k <= 0, x, z3.If(climbable(h, self_, x), up(k - 1, parent_of(h, self_, x)), x)), patterns=[up(k, x)]))
+
+    def hook_search(ex, st, node):
+        lv, pm = S.ival(st.env['levels_up'].t), st.env['parent_module_id'].t
+        start = ex.ctx(st).cur.attr(st.env['unit_info'].t, 'parent_module_id')
+        ex.oblige(st, 'relative-import:the-search-starts-levels_up-packages-above-the-importing-file-(or-at-the-last-package-that-has-a-parent)', pm == up(lv, start), kind='lemma')
+        # ... and levels_up is (number of leading dots - 1), 0 for an absolute path
+        sv = S.sval(st.env['import_path_str'].t)
+        dot = z3.StringVal('.')
+        if 'leading_dots' in st.env:
+            ld = S.ival(st.env['leading_dots'].t)
+            j = z3.Int('dj')
+            counted = z3.And(ld >= 0, ld <= z3.Length(sv), z3.ForAll([j], z3.Implies(z3.And(j >= 0, j < ld), z3.SubString(sv, j, 1) == dot)),
+                             z3.Or(ld == z3.Length(sv), z3.SubString(sv, ld, 1) != dot))
+            ex.oblige(st, 'relative-import:leading_dots-is-the-number-of-leading-dots-of-the-import-path', counted, kind='lemma')
+            ex.oblige(st, 'relative-import:one-package-level-per-leading-dot-after-the-first', lv == z3.If(ld > 1, ld - 1, 0), kind='lemma')
+        else:
+            ex.oblige(st, 'relative-import:an-import-path-without-leading-dot-climbs-no-level', z3.And(lv == 0, z3.Not(z3.PrefixOf(dot, sv))), kind='lemma')
+    reg.add(Contract(IH, 'ImportHierarchy.analyze_import_stmt', dict(self=IHO, unit_id=Any, unit_info=Obj('UnitInfo'), stmt=Obj('ImportStmt'), external_symbols=List(Any)), returns=Any,
+                     stop_before='import_nodes, remaining = self.parse_import_path_from_current_dir(', ghost_init=up_def,
+                     ghost_hooks={'before_stmt:import_nodes, remaining = self.parse_import_path_from_current_dir(': hook_search},
+                     local_types={'levels_up': Int, 'leading_dots': Int},
+                     pre_assume=[('cells-of-the-import-statement-row-are-scalars', lambda c: z3.Not(S.is_ref(c.old.attr(c.p.stmt, 'alias'))))],
+                     loops={1: LoopSpec(invariants=[('dots-counted-so-far', lambda c: z3.And(
+                         S.is_int(c.l.leading_dots), S.ival(c.l.leading_dots) == c.i,
+                         z3.ForAll([z3.Int('dk')], z3.Implies(z3.And(z3.Int('dk') >= 0, z3.Int('dk') < c.i), z3.SubString(S.sval(c.l.import_path_str), z3.Int('dk'), 1) == z3.StringVal('.')))))]),
+                            2: LoopSpec(invariants=[('climbed-so-far', lambda c: z3.And(
+                         S.is_int(c.l.levels_up), up(S.ival(c.l.levels_up) - c.i, c.l.parent_module_id) == up(S.ival(c.l.levels_up), c.pre.attr(c.p.unit_info, 'parent_module_id'))))])},
+                     modifies=lambda c: {}))
     return reg
 
 
